@@ -149,6 +149,19 @@ fn translate_block(
         // slot, return. We always want to have enough bytes to handle a delay
         // slot.
         if offset >= bytes.len() {
+            // A branch whose delay slot lies beyond the available bytes
+            // cannot be translated, dropping the slot silently would leave
+            // the branch's successors next to a fall-through successor.
+            if matches!(
+                branch_delay,
+                TranslateBranchDelay::DelaySlot(_, _)
+                    | TranslateBranchDelay::DelaySlotFallThrough(_, _)
+            ) {
+                return Err(Error::Custom(format!(
+                    "Branch delay slot at 0x{:x} is not available",
+                    address + offset as u64
+                )));
+            }
             successors.push((address + offset as u64, None));
             break;
         }
